@@ -1,19 +1,28 @@
-//! C24: `fuel_core_poa::service::MainTask` driven through schedules of trigger firings (the real
-//! `run` loop iteration), manual production requests, sync-task updates, direct database imports
-//! and clock advances, with scripted leader state and producer / signer / importer outcomes.
+//! C24: `fuel_core_poa::service::MainTask` and its real `SyncTask` driven through schedules of trigger
+//! firings (`ensure_synced` followed by the real `run` loop iteration), manual production requests,
+//! reserved-peer counts, blocks imported by another path (announced on the importer's block stream, as
+//! the real importer does), silent database changes and clock advances, with scripted leader state and
+//! producer / signer / importer outcomes, under a paused tokio clock.
 //!
-//! input = (trigger (h0 t0) clock0 ops)      trigger = (0) Never | (1) Instant | (2 secs) Interval | (3 secs) Open
-//!   op  = (0 clock signer leader fail)      one iteration of MainTask::run (trigger branch)
+//! input = (trigger (h0 t0) clock0 (min_peers time_until_synced_ms) ops)
+//!   trigger = (0) Never | (1) Instant | (2 secs) Interval | (3 secs) Open
+//!   op  = (0 clock signer leader fail mid)  ensure_synced, then one iteration of MainTask::run; mid = () | (d t):
+//!                                           a block (last_height + d - 1, t) is imported by another path right
+//!                                           before the task reads the database height
 //!       | (1 clock signer start mode fail)  produce_manual_blocks      start = () | (t)   mode = (0 n) | (1)
-//!       | (2 clock h t)                     update_last_block_values (the sync task reported Synced(h, t))
-//!       | (3 db)                            the database got block (h t) by another path; db = () | (h t)
+//!       | (2 clock d t)                     update_last_block_values(last_height + d - 1, t)
+//!       | (3 db)                            the database content changes silently; db = () | (d t)
 //!       | (4 ms)                            the monotonic clock advances
-//!   leader = (0) error | (1) follower | (2) leader | (3 ((h t ok) ..)) unreconciled blocks
+//!       | (5 n)                             reserved peers count
+//!       | (6 d t)                           block (last_height + d - 1, t) imported by another path
+//!   leader = (0) error | (1) follower | (2) leader | (3 ((off t ok) ..)) unreconciled blocks at asked height + off - 1
 //!   fail   = () | (idx stage)   the idx-th production of the op fails at stage 0 produce, 1 seal, 2 commit
-//! observation per op = (result state events)
-//!   state = (last_height last_timestamp last_block_created_ms now_ms db)
+//! observation per op = (result state sync events)
+//!   result = () | (code) | (ensure_code state_after_ensure sync_then run_code) for op 0
+//!   state = (last_height last_timestamp last_block_created_ms now_ms db)    sync = () NotSynced | (h t)
 //!   event = (0 h) leader_state | (1 h time source deadline_ms at_ms) produce | (2 h) seal
 //!         | (3 h time sealed) commit_result | (4 h time) execute_and_commit | (5) release
+//!         | (6 h time local at_ms) announced on the block stream | (7 h time at_ms) imported by another path
 use fuel_core_poa::{
     ports::{
         BlockImporter, BlockProducer, BlockReconciliationReadPort, BlockSigner, GetTime, InMemoryPredefinedBlocks,
@@ -53,12 +62,34 @@ struct Script {
     db: Option<(u32, u64)>,
     /// next height asked by the last leader_state call: batch heights are nh + off - 1
     nh: u32,
+    /// a block to import by another path at the next database height read
+    mid: Option<(u32, u64)>,
 }
 
 struct Sh {
     s: Mutex<Script>,
     log: Mutex<Vec<T>>,
     base: Instant,
+    blk_tx: tokio::sync::mpsc::UnboundedSender<BlockImportInfo>,
+    blk_rx: Mutex<Option<tokio::sync::mpsc::UnboundedReceiver<BlockImportInfo>>>,
+    peers_rx: Mutex<Option<tokio::sync::mpsc::UnboundedReceiver<usize>>>,
+}
+
+impl Sh {
+    /// the importer's announcement of an imported block
+    fn announce(&self, h: u32, t: u64, local: bool) {
+        let header = header_of(h, t);
+        let info = if local { BlockImportInfo::from(header) } else { BlockImportInfo::new_from_network(header) };
+        let _ = self.blk_tx.send(info);
+    }
+    /// a block imported by another path: database and announcement
+    fn p2p_import(&self, s: &mut Script, h: u32, t: u64) {
+        if s.db.map(|d| h > d.0).unwrap_or(true) {
+            s.db = Some((h, t));
+        }
+        self.log.lock().unwrap().push(T::l(vec![T::i(7), T::n(h), T::n(t), ms(self.base, Instant::now())]));
+        self.announce(h, t, false);
+    }
 }
 
 fn ms(base: Instant, i: Instant) -> T {
@@ -159,6 +190,8 @@ impl BlockImporter for Importer {
         if s.db.map(|d| h > d.0).unwrap_or(true) {
             s.db = Some((h, t));
         }
+        self.0.log.lock().unwrap().push(T::l(vec![T::i(6), T::n(h), T::n(t), T::b(true), ms(self.0.base, Instant::now())]));
+        self.0.announce(h, t, true);
         Ok(())
     }
 
@@ -182,15 +215,22 @@ impl BlockImporter for Importer {
         if s.db.map(|d| h > d.0).unwrap_or(true) {
             s.db = Some((h, t));
         }
+        self.0.log.lock().unwrap().push(T::l(vec![T::i(6), T::n(h), T::n(t), T::b(false), ms(self.0.base, Instant::now())]));
+        self.0.announce(h, t, false);
         Ok(())
     }
 
     fn block_stream(&self) -> BoxStream<BlockImportInfo> {
-        Box::pin(tokio_stream::pending())
+        let rx = self.0.blk_rx.lock().unwrap().take().expect("block stream taken once");
+        Box::pin(tokio_stream::wrappers::UnboundedReceiverStream::new(rx))
     }
 
     fn latest_block_height(&self) -> anyhow::Result<Option<BlockHeight>> {
-        Ok(self.0.s.lock().unwrap().db.map(|d| d.0.into()))
+        let mut s = self.0.s.lock().unwrap();
+        if let Some((h, t)) = s.mid.take() {
+            self.0.p2p_import(&mut s, h, t);
+        }
+        Ok(s.db.map(|d| d.0.into()))
     }
 }
 
@@ -244,10 +284,11 @@ impl TransactionPool for Pool {
     }
 }
 
-struct P2p;
+struct P2p(Arc<Sh>);
 impl P2pPort for P2p {
     fn reserved_peers_count(&self) -> BoxStream<usize> {
-        Box::pin(tokio_stream::pending())
+        let rx = self.0.peers_rx.lock().unwrap().take().expect("peer stream taken once");
+        Box::pin(tokio_stream::wrappers::UnboundedReceiverStream::new(rx))
     }
 }
 
@@ -273,6 +314,14 @@ pub fn run(input: &T) -> T {
     }
 }
 
+const BIG_WAIT_MS: u64 = 100_000;
+
+async fn settle() {
+    for _ in 0..12 {
+        tokio::task::yield_now().await;
+    }
+}
+
 fn run_inner(input: &T) -> T {
     let f = input.as_l();
     let tr = f[0].as_l();
@@ -284,21 +333,27 @@ fn run_inner(input: &T) -> T {
     };
     let (h0, t0) = (f[1].as_l()[0].as_u32(), f[1].as_l()[1].as_u64());
     let clock0 = f[2].as_u64();
+    let (min_peers, tus_ms) = (f[3].as_l()[0].as_usize(), f[3].as_l()[1].as_u64());
     let rt = tokio::runtime::Builder::new_current_thread().enable_all().start_paused(true).build().expect("runtime");
     rt.block_on(async move {
         let base = Instant::now();
+        let (blk_tx, blk_rx) = tokio::sync::mpsc::unbounded_channel();
+        let (peers_tx, peers_rx) = tokio::sync::mpsc::unbounded_channel();
         let sh = Arc::new(Sh {
             s: Mutex::new(Script { clock: clock0, signer: true, db: Some((h0, t0)), ..Default::default() }),
             log: Default::default(),
             base,
+            blk_tx,
+            blk_rx: Mutex::new(Some(blk_rx)),
+            peers_rx: Mutex::new(Some(peers_rx)),
         });
         let (txs_tx, txs_rx) = tokio::sync::watch::channel(());
         let config = Config {
             trigger,
             signer: SignMode::Unavailable,
             metrics: false,
-            min_connected_reserved_peers: 0,
-            time_until_synced: Duration::ZERO,
+            min_connected_reserved_peers: min_peers,
+            time_until_synced: Duration::from_millis(tus_ms),
             production_timeout: Duration::from_secs(20),
             chain_id: Default::default(),
         };
@@ -308,7 +363,7 @@ fn run_inner(input: &T) -> T {
             Pool(txs_rx),
             Producer(sh.clone()),
             Importer(sh.clone()),
-            P2p,
+            P2p(sh.clone()),
             Arc::new(Signer(sh.clone())),
             InMemoryPredefinedBlocks::new(HashMap::new()),
             Clock(sh.clone()),
@@ -317,6 +372,7 @@ fn run_inner(input: &T) -> T {
         );
         let mut watcher = StateWatcher::started();
         let mut task = task.into_task(&watcher, ()).await.expect("into_task");
+        settle().await;
         let state_t = |task: &MainTask<_, _, _, _, _, _, _>, sh: &Arc<Sh>| {
             let (h, t, c) = task.verif_state();
             let db = match sh.s.lock().unwrap().db {
@@ -325,8 +381,13 @@ fn run_inner(input: &T) -> T {
             };
             T::l(vec![T::n(*h), T::n(t.0), ms(base, c), ms(base, Instant::now()), db])
         };
-        let mut out = vec![T::l(vec![T::l(vec![]), state_t(&task, &sh), T::l(vec![])])];
-        for op in f[3].as_l() {
+        let sync_t = |task: &MainTask<_, _, _, _, _, _, _>| match task.verif_sync_state() {
+            None => T::l(vec![]),
+            Some(h) => T::l(vec![T::n(**h.height()), T::n(h.time().0)]),
+        };
+        let mut out = vec![T::l(vec![T::l(vec![]), state_t(&task, &sh), sync_t(&task), T::l(vec![])])];
+        let big = Duration::from_millis(BIG_WAIT_MS);
+        for op in f[4].as_l() {
             let o = op.as_l();
             let res = match o[0].as_i() {
                 0 => {
@@ -338,17 +399,32 @@ fn run_inner(input: &T) -> T {
                         s.fail = fail_of(&o[4]);
                         s.prod_count = 0;
                         s.cur = 0;
+                        s.mid = None;
                     }
-                    if matches!(trigger, Trigger::Never) {
-                        T::l(vec![T::i(3)])
-                    } else {
-                        let _ = txs_tx.send(());
-                        match task.run(&mut watcher).await {
-                            TaskNextAction::Continue => T::l(vec![T::i(0)]),
-                            TaskNextAction::ErrorContinue(_) => T::l(vec![T::i(1)]),
-                            TaskNextAction::Stop => T::l(vec![T::i(2)]),
+                    let ens = tokio::time::timeout(big, task.verif_ensure_synced(&mut watcher)).await;
+                    let ens_code = match ens {
+                        Ok(None) => 0,
+                        Err(_) => 1,
+                        Ok(Some(_)) => 2,
+                    };
+                    let ens_state = state_t(&task, &sh);
+                    let ens_sync = sync_t(&task);
+                    if ens_code == 0 {
+                        let m = o[5].as_l();
+                        if !m.is_empty() {
+                            let lh: u32 = *task.verif_state().0;
+                            sh.s.lock().unwrap().mid = Some(((lh + m[0].as_u32()).saturating_sub(1), m[1].as_u64()));
                         }
                     }
+                    let _ = txs_tx.send(());
+                    let run_code = match tokio::time::timeout(big, task.run(&mut watcher)).await {
+                        Ok(TaskNextAction::Continue) => 0,
+                        Ok(TaskNextAction::ErrorContinue(_)) => 1,
+                        Ok(TaskNextAction::Stop) => 2,
+                        Err(_) => 3,
+                    };
+                    sh.s.lock().unwrap().mid = None;
+                    T::l(vec![T::i(ens_code), ens_state, ens_sync, T::l(vec![T::i(run_code)])])
                 }
                 1 => {
                     {
@@ -359,6 +435,7 @@ fn run_inner(input: &T) -> T {
                         s.fail = fail_of(&o[5]);
                         s.prod_count = 0;
                         s.cur = 0;
+                        s.mid = None;
                     }
                     let start = o[3].as_l().first().map(|x| Tai64(x.as_u64()));
                     let m = o[4].as_l();
@@ -388,10 +465,22 @@ fn run_inner(input: &T) -> T {
                     tokio::time::advance(Duration::from_millis(o[1].as_u64())).await;
                     T::l(vec![])
                 }
+                5 => {
+                    let _ = peers_tx.send(o[1].as_usize());
+                    T::l(vec![])
+                }
+                6 => {
+                    let lh: u32 = *task.verif_state().0;
+                    let h = (lh + o[1].as_u32()).saturating_sub(1);
+                    let mut s = sh.s.lock().unwrap();
+                    sh.p2p_import(&mut s, h, o[2].as_u64());
+                    T::l(vec![])
+                }
                 k => panic!("bad op {k}"),
             };
+            settle().await;
             let evs = T::l(std::mem::take(&mut *sh.log.lock().unwrap()));
-            out.push(T::l(vec![res, state_t(&task, &sh), evs]));
+            out.push(T::l(vec![res, state_t(&task, &sh), sync_t(&task), evs]));
         }
         T::l(out)
     })
@@ -423,6 +512,11 @@ pub fn gen(rng: &mut Rng, n: u64, tier: &str) -> Vec<T> {
         let mut clock = if big { t0 } else { t0.saturating_add(rng.below(8)) };
         // shadow of the heights / times in play, to generate mostly relevant values
                 let mut top_t = t0;
+        let (min_peers, tus): (u64, u64) = match rng.below(10) {
+            0..=3 => (0, 0),
+            4..=6 => (0, *rng.pick(&[500u64, 1000, 2000, 3000])),
+            _ => (1 + rng.below(2), *rng.pick(&[0u64, 1000, 2000])),
+        };
         let len = rng.range(1, max_len);
         let mut ops = vec![];
         for _ in 0..len {
@@ -430,7 +524,14 @@ pub fn gen(rng: &mut Rng, n: u64, tier: &str) -> Vec<T> {
                 clock = clock.saturating_add(rng.below(4));
             }
             let ck = if rng.chance(1, 15) { clock.saturating_sub(rng.below(20)) } else { clock };
-            match rng.below(12) {
+            match rng.below(16) {
+                12..=13 => ops.push(T::l(vec![T::i(5), T::n(rng.below(4))])),
+                14..=15 => {
+                    let d = rng.below(4) as u32;
+                    let t = if big { t0 } else { ck.saturating_add(rng.below(6)) };
+                    top_t = top_t.max(t);
+                    ops.push(T::l(vec![T::i(6), T::n(d), T::n(t)]));
+                }
                 0..=4 => {
                     let leader = match rng.below(10) {
                         0 => T::l(vec![T::i(0)]),
@@ -455,7 +556,14 @@ pub fn gen(rng: &mut Rng, n: u64, tier: &str) -> Vec<T> {
                             T::l(vec![T::i(3), T::l(bs)])
                         }
                     };
-                    ops.push(T::l(vec![T::i(0), T::n(ck), T::b(!rng.chance(1, 12)), leader, fail_t(rng, 1)]));
+                    let mid = if rng.chance(1, 5) {
+                        let t = if big { t0 } else if rng.chance(1, 3) { top_t.saturating_sub(rng.below(4)) } else { ck.saturating_add(rng.below(6)) };
+                        top_t = top_t.max(t);
+                        T::l(vec![T::n(rng.below(4)), T::n(t)])
+                    } else {
+                        T::l(vec![])
+                    };
+                    ops.push(T::l(vec![T::i(0), T::n(ck), T::b(!rng.chance(1, 12)), leader, fail_t(rng, 1), mid]));
                 }
                 5..=6 => {
                     let start = if rng.chance(1, 2) {
@@ -487,7 +595,13 @@ pub fn gen(rng: &mut Rng, n: u64, tier: &str) -> Vec<T> {
                 _ => ops.push(T::l(vec![T::i(4), T::n(*rng.pick(&[1u64, 500, 999, 1000, 1001, 2500, 10000]))])),
             }
         }
-        cases.push(T::l(vec![trig, T::l(vec![T::n(h0), T::n(t0)]), T::n(clock.min(t0.saturating_add(8)).max(t0)), T::l(ops)]));
+        cases.push(T::l(vec![
+            trig,
+            T::l(vec![T::n(h0), T::n(t0)]),
+            T::n(clock.min(t0.saturating_add(8)).max(t0)),
+            T::l(vec![T::n(min_peers), T::n(tus)]),
+            T::l(ops),
+        ]));
     }
     cases
 }
